@@ -414,3 +414,281 @@ Proof.
       rewrite Ha. eexists. split; [reflexivity|].
       intro rho. apply generic_cover_sem. apply rows_wfb_width. exact Hrows.
 Qed.
+
+(* ------------------------------------------------------------------ *)
+(* the flip-flop table                                                 *)
+
+Definition bools : list bool := [false; true].
+
+Lemma in_bools b : In b bools.
+Proof. destruct b; simpl; auto. Qed.
+
+(* pins a cell has, by its decoded name: L 0 = D, L 1 = E, L 2 = S, L 3 = R, L 4 = Q *)
+Definition pin_allowed (cd : cell_desc) (x : sig) : bool :=
+  let i := pin_index x in
+  if i =? 0 then true
+  else if i =? 1 then (match cd_en cd with Some _ => true | None => false end)
+  else if i =? 2 then (match cd_set cd with Some _ => true | None => false end)
+  else if i =? 3 then (match cd_rst cd with Some _ => true | None => false end)
+  else if i =? 4 then true else false.
+
+Definition flop_entry_ok (cell : String.string) : bool :=
+  match str_assoc flop_table cell, decode_cell (canon_cell cell) with
+  | Some body, Some cd =>
+      negb (has_absent body) && forallb (pin_allowed cd) (bvars body) &&
+      forallb (fun d => forallb (fun e => forallb (fun s => forallb (fun r => forallb (fun q =>
+        Bool.eqb (beval (flop_env d e s r q) body) (dff_next cd d e s r q))
+        bools) bools) bools) bools) bools
+  | _, _ => false
+  end.
+
+(* bound: 32 listed cells x 2^5 valuations of (D, E, S, R, Q) -- the whole domain *)
+Lemma flop_table_ok : forallb flop_entry_ok dff_names = true.
+Proof. vm_compute. reflexivity. Qed.
+
+Lemma flop_table_correct : forall cell, In cell dff_names ->
+  exists body cd,
+    str_assoc flop_table cell = Some body /\ decode_cell (canon_cell cell) = Some cd
+    /\ has_absent body = false
+    /\ (forall x, In x (bvars body) -> pin_allowed cd x = true)
+    /\ forall d e s r q, beval (flop_env d e s r q) body = dff_next cd d e s r q.
+Proof.
+  intros cell Hin. pose proof flop_table_ok as H. rewrite forallb_forall in H.
+  specialize (H _ Hin). unfold flop_entry_ok in H.
+  destruct (str_assoc flop_table cell) as [body|]; [|discriminate].
+  destruct (decode_cell (canon_cell cell)) as [cd|]; [|discriminate].
+  apply andb_prop in H. destruct H as [H Hsem]. apply andb_prop in H. destruct H as [Ha Hp].
+  exists body, cd. repeat split; auto.
+  - apply negb_true_iff. exact Ha.
+  - rewrite forallb_forall in Hp. exact Hp.
+  - intros d e s r q.
+    rewrite forallb_forall in Hsem. specialize (Hsem d (in_bools d)).
+    rewrite forallb_forall in Hsem. specialize (Hsem e (in_bools e)).
+    rewrite forallb_forall in Hsem. specialize (Hsem s (in_bools s)).
+    rewrite forallb_forall in Hsem. specialize (Hsem r (in_bools r)).
+    rewrite forallb_forall in Hsem. specialize (Hsem q (in_bools q)).
+    apply eqb_prop. exact Hsem.
+Qed.
+
+(* every key of dff_names has a row and vice versa (the NOTE in the source) *)
+Lemma dff_names_table_consistent :
+  forallb (fun c => existsb (String.eqb c) (map fst flop_table)) dff_names = true
+  /\ forallb (fun c => existsb (String.eqb c) dff_names) (map fst flop_table) = true.
+Proof. vm_compute. split; reflexivity. Qed.
+
+Lemma flop_args_env rho d q e s r x :
+  beval rho (flop_args d q e s r x)
+  = flop_env (rho d) (opt_ev rho e) (opt_ev rho s) (opt_ev rho r) (rho q) x.
+Proof.
+  unfold flop_args, flop_env.
+  destruct (pin_index x =? 0); [reflexivity|].
+  destruct (pin_index x =? 1); [destruct e; reflexivity|].
+  destruct (pin_index x =? 2); [destruct s; reflexivity|].
+  destruct (pin_index x =? 3); [destruct r; reflexivity|].
+  destruct (pin_index x =? 4); reflexivity.
+Qed.
+
+Lemma extract_flop_sem cell d q e s r o dr :
+  extract_flop cell d q e s r = Some (o, dr) ->
+  o = q /\ exists nx cd, dr = DReg nx flop_reset /\ decode_cell (canon_cell cell) = Some cd /\
+    forall rho, beval rho nx
+      = dff_next cd (rho d) (opt_ev rho e) (opt_ev rho s) (opt_ev rho r) (rho q).
+Proof.
+  unfold extract_flop. destruct (existsb (String.eqb cell) dff_names) eqn:Hin; [|discriminate].
+  apply existsb_exists in Hin. destruct Hin as (c' & Hin & Heq). apply String.eqb_eq in Heq. subst c'.
+  destruct (flop_table_correct cell Hin) as (body & cd & Hb & Hd & _ & _ & Hsem).
+  rewrite Hb. destruct (has_absent (bsubst (flop_args d q e s r) body)); [discriminate|].
+  intro H. injection H as Ho Hdr. subst o dr. split; [reflexivity|].
+  eexists. exists cd. repeat split; auto.
+  intro rho. rewrite beval_bsubst.
+  rewrite (beval_ext body _ (flop_env (rho d) (opt_ev rho e) (opt_ev rho s) (opt_ev rho r) (rho q))).
+  - apply Hsem.
+  - intros x _. apply flop_args_env.
+Qed.
+
+(* ------------------------------------------------------------------ *)
+(* .latch initial values                                               *)
+
+Definition reset_bool (r : option Z) : bool :=
+  match r with Some z => negb (Z.eqb z 0) | None => false end.
+
+Lemma latch_init_table_ok :
+  forallb (fun code => match latch_init_map code with
+                       | Some r => init_code_okb code (reset_bool r)
+                       | None => false
+                       end) latch_init_codes = true
+  /\ forallb (fun code => existsb (Z.eqb code) latch_init_codes) [0; 1; 2; 3] = true
+  /\ existsb (Z.eqb latch_init_default) latch_init_codes = true.
+Proof. vm_compute. repeat split; reflexivity. Qed.
+
+Lemma init_code_okb_ok code v : init_code_okb code v = true -> init_code_ok code v.
+Proof.
+  unfold init_code_okb, init_code_ok.
+  destruct (Z.eqb_spec code 0); [intros; subst; split; [intros _; destruct v; auto; discriminate | lia] |].
+  destruct (Z.eqb_spec code 1); [intros; subst; split; [lia | auto] |].
+  intros _. split; intro; lia.
+Qed.
+
+Lemma latch_init_correct : forall code, 0 <= code <= 3 ->
+  exists r, latch_init_map code = Some r /\ existsb (Z.eqb code) latch_init_codes = true
+            /\ init_code_ok code (reset_bool r).
+Proof.
+  intros code Hc. destruct latch_init_table_ok as (H1 & H2 & _).
+  rewrite forallb_forall in H1. rewrite forallb_forall in H2.
+  assert (Hin : In code [0; 1; 2; 3]) by (simpl; lia).
+  specialize (H2 _ Hin). pose proof H2 as H2'.
+  apply existsb_exists in H2. destruct H2 as (c & Hc1 & Hc2). apply Z.eqb_eq in Hc2. subst c.
+  specialize (H1 _ Hc1). destruct (latch_init_map code) as [r|]; [|discriminate].
+  exists r. split; [reflexivity|]. split; [exact H2'|]. apply init_code_okb_ok. exact H1.
+Qed.
+
+(* ------------------------------------------------------------------ *)
+(* flat models: the imported circuit computes blif_run                 *)
+
+Definition cmd_wf (c : command) : bool :=
+  match c with Names sigs rows => cover_wf sigs rows | Subckt _ _ => false | _ => true end.
+
+Definition model_wf (m : model) : bool := forallb cmd_wf (mcmds m).
+
+Lemma import_cmd_out c o d : cmd_wf c = true -> import_cmd c = Some (o, d) -> cmd_out c = Some o.
+Proof.
+  destruct c as [sigs rows|d0 q i|cell d0 q e s r|n b]; simpl; intros Hwf H.
+  - destruct (cover_correct sigs rows Hwf) as (e & He & _). rewrite He in H. inversion H; subst.
+    destruct (cover_wf_rows _ _ Hwf) as (ins & o' & -> & _).
+    rewrite last_opt_app_one, last_app_one. reflexivity.
+  - unfold extract_latch in H. destruct (existsb (Z.eqb i) latch_init_codes); [|discriminate].
+    destruct (latch_init_map i); inversion H; reflexivity.
+  - apply extract_flop_sem in H. destruct H as [-> _]. reflexivity.
+  - discriminate.
+Qed.
+
+Lemma import_lookup : forall cmds ds, forallb cmd_wf cmds = true -> mapM import_cmd cmds = Some ds ->
+  forall x, match find_drv cmds x with
+            | Some c => exists o d, import_cmd c = Some (o, d) /\ sassoc ds x = Some d /\ cmd_wf c = true
+            | None => sassoc ds x = None
+            end.
+Proof.
+  induction cmds as [|c cmds IH]; simpl; intros ds Hwf Hm x.
+  - inversion Hm. reflexivity.
+  - apply andb_prop in Hwf. destruct Hwf as [Hc Hwf].
+    destruct (import_cmd c) as [[o d]|] eqn:Hi; [|discriminate].
+    destruct (mapM import_cmd cmds) as [ds'|] eqn:Hm'; [|discriminate].
+    inversion Hm; subst ds. rewrite (import_cmd_out c o d Hc Hi). simpl.
+    destruct (sig_eqb o x).
+    + exists o, d. auto.
+    + apply IH; auto.
+Qed.
+
+Section Flat.
+  Variable m : model.
+  Variable ds : list (sig * drv).
+  Hypothesis Hwf : model_wf m = true.
+  Hypothesis Himp : mapM import_cmd (mcmds m) = Some ds.
+  Let c := mkCircuit (minputs m) (moutputs m) ds.
+
+  Lemma flat_ev : forall fuel st ins x, c_ev fuel c st ins x = blif_ev fuel m st ins x.
+  Proof.
+    induction fuel as [|f IH]; intros st ins x; [reflexivity|].
+    simpl. destruct (sig_mem x (minputs m)); [reflexivity|].
+    pose proof (import_lookup _ _ Hwf Himp x) as Hl.
+    destruct (find_drv (mcmds m) x) as [cmd|].
+    - destruct Hl as (o & d & Hi & Hs & Hc). rewrite Hs.
+      destruct cmd as [sigs rows|d0 q i|cell d0 q e s r|n b]; simpl in Hi, Hc.
+      + destruct (cover_correct sigs rows Hc) as (e & He & Hsem). rewrite He in Hi.
+        inversion Hi; subst. rewrite Hsem. f_equal. apply map_ext. intro y. apply IH.
+      + unfold extract_latch in Hi. destruct (existsb (Z.eqb i) latch_init_codes); [|discriminate].
+        destruct (latch_init_map i); inversion Hi; reflexivity.
+      + apply extract_flop_sem in Hi. destruct Hi as (_ & nx & cd & -> & _). reflexivity.
+      + discriminate.
+    - rewrite Hl. reflexivity.
+  Qed.
+
+  Lemma opt_ev_ext f g o : (forall x, f x = g x) -> opt_ev f o = opt_ev g o.
+  Proof. intro H. destruct o; simpl; auto. Qed.
+
+  Lemma flat_next : forall fuel st ins cmds' ds', forallb cmd_wf cmds' = true ->
+    mapM import_cmd cmds' = Some ds' ->
+    flat_map (c_next fuel c st ins) ds' = flat_map (blif_next fuel m st ins) cmds'.
+  Proof.
+    intros fuel st ins. induction cmds' as [|cmd cmds' IH]; simpl; intros ds' Hw Hm.
+    - inversion Hm. reflexivity.
+    - apply andb_prop in Hw. destruct Hw as [Hc Hw].
+      destruct (import_cmd cmd) as [[o d]|] eqn:Hi; [|discriminate].
+      destruct (mapM import_cmd cmds') as [ds''|] eqn:Hm'; [|discriminate].
+      inversion Hm; subst ds'. simpl. rewrite (IH ds'' Hw eq_refl). f_equal.
+      destruct cmd as [sigs rows|d0 q i|cell d0 q e s r|n b]; simpl in Hi, Hc.
+      + destruct (extract_cover sigs rows) as [[o' e']|]; inversion Hi; reflexivity.
+      + unfold extract_latch in Hi. destruct (existsb (Z.eqb i) latch_init_codes); [|discriminate].
+        destruct (latch_init_map i); inversion Hi; subst. simpl. rewrite flat_ev. reflexivity.
+      + apply extract_flop_sem in Hi. destruct Hi as (-> & nx & cd & -> & Hd & Hsem).
+        simpl. rewrite Hd, Hsem. rewrite !flat_ev.
+        rewrite (opt_ev_ext _ (blif_ev fuel m st ins) e), (opt_ev_ext _ (blif_ev fuel m st ins) s),
+                (opt_ev_ext _ (blif_ev fuel m st ins) r); auto using flat_ev.
+      + discriminate.
+  Qed.
+
+  Lemma flat_step fuel st ins : c_step fuel c st ins = blif_step fuel m st ins.
+  Proof.
+    unfold c_step, blif_step. f_equal.
+    - simpl. apply map_ext. intro x. apply flat_ev.
+    - apply flat_next; [exact Hwf | exact Himp].
+  Qed.
+
+  Lemma flat_run fuel : forall inss st, c_run fuel c st inss = blif_run fuel m st inss.
+  Proof.
+    induction inss as [|i inss IH]; intro st; [reflexivity|].
+    cbn [c_run blif_run]. rewrite flat_step. destruct (blif_step fuel m st i) as [o st']. rewrite IH. reflexivity.
+  Qed.
+End Flat.
+
+Lemma c_init_lookup : forall ds x n r, sassoc ds x = Some (DReg n r) ->
+  slookup (c_init (mkCircuit [] [] ds)) x = reset_bool r.
+Proof.
+  unfold c_init. simpl.
+  induction ds as [|[y d] ds IH]; simpl; intros x n r H; [discriminate|].
+  destruct (sig_eqb y x) eqn:E.
+  - inversion H; subst d. destruct r as [z|]; unfold slookup; simpl; rewrite E; reflexivity.
+  - specialize (IH x n r H). destruct d as [e|n' [z|]]; simpl; auto;
+      unfold slookup in *; simpl; rewrite E; exact IH.
+Qed.
+
+Theorem flat_import_correct : forall m c, model_wf m = true -> import_flat m = Some c ->
+  (forall fuel st inss, c_run fuel c st inss = blif_run fuel m st inss)
+  /\ blif_init_ok m (slookup (c_init c)).
+Proof.
+  intros m c Hwf Hi. unfold import_flat in Hi.
+  destruct (mapM import_cmd (mcmds m)) as [ds|] eqn:Hm; [|discriminate]. inversion Hi; subst c.
+  split.
+  - intros. apply flat_run; assumption.
+  - intros x d q i Hf.
+    pose proof (import_lookup _ _ Hwf Hm x) as Hl. rewrite Hf in Hl.
+    destruct Hl as (o & dr & Hic & Hs & _). simpl in Hic.
+    unfold extract_latch in Hic. destruct (existsb (Z.eqb i) latch_init_codes) eqn:Hcode; [|discriminate].
+    destruct (latch_init_map i) as [r|] eqn:Hmap; [|discriminate]. inversion Hic; subst.
+    change (c_init {| c_inputs := minputs m; c_outputs := moutputs m; c_drv := ds |})
+      with (c_init (mkCircuit [] [] ds)).
+    rewrite (c_init_lookup ds x _ _ Hs).
+    destruct latch_init_table_ok as (H1 & _). rewrite forallb_forall in H1.
+    apply existsb_exists in Hcode. destruct Hcode as (c0 & Hc0 & Heq). apply Z.eqb_eq in Heq. subst c0.
+    specialize (H1 _ Hc0). rewrite Hmap in H1. apply init_code_okb_ok. exact H1.
+Qed.
+
+(* ------------------------------------------------------------------ *)
+(* vector ports (merge_io_vectors=True)                                *)
+
+Lemma vec_merge_bit : forall bits i, vec_bit (vec_merge bits) i = nth i bits false.
+Proof.
+  unfold vec_bit. induction bits as [|b bits IH]; intro i.
+  - simpl. destruct i; apply Z.testbit_0_l.
+  - cbn [vec_merge]. destruct i as [|i].
+    + simpl. apply Z.add_b2z_double_bit0.
+    + rewrite Nat2Z.inj_succ. rewrite (Z.add_comm (Z.b2z b)).
+      rewrite Z.testbit_succ_r by lia. simpl. apply IH.
+Qed.
+
+Lemma vec_merge_range : forall bits, 0 <= vec_merge bits < 2 ^ Z.of_nat (List.length bits).
+Proof.
+  induction bits as [|b bits IH]; [simpl; lia|].
+  cbn [vec_merge List.length]. rewrite Nat2Z.inj_succ, Z.pow_succ_r by lia.
+  destruct b; simpl Z.b2z; lia.
+Qed.
